@@ -192,7 +192,9 @@ theorem dead_unreset_job_wedges :
   · have := h 0 0 .split (by simp) (by decide) (by decide)
     exact absurd this (by decide)
 
-/-- `restart_completes_same_completion_set` (default reset mode; formerly `restart_completes_same`):
+/-- `restart_completes_same_completion_set_partial` (default reset mode; formerly `restart_completes_same`;
+PARTIAL — exact gap: only for histories whose events are all `Ev.benign`, about six real restart
+histories in seven; sentinel states only, not output values; `SameChoices` assumed):
 take two runs of the same acyclic graph from its initial state, both fair, both without
 failure events, both with finitely many interruptions and fork-structure events, with mrp up
 and every dead job reset after the last one — say, one in which mrp is killed after arbitrary
@@ -212,7 +214,7 @@ has the directory state `expectedOutcome`, a function of the graph and of the ch
 relates the two runs beyond that.  The premise `Ev.benign` is evaluated by the driver on every
 replayed history (reply field `benign=`); about one real restart history in seven (chunks
 redefined at re-attach, or a fault) does not satisfy it and is outside this theorem. -/
-theorem restart_completes_same_completion_set {g : List NodeInfo} (hac : Acyclic g)
+theorem restart_completes_same_completion_set_partial {g : List NodeInfo} (hac : Acyclic g)
     {σ : Nat → State} {es : Nat → Ev} (hrun : Run (init g) σ es)
     (hb : ∀ i, (es i).benign (σ i) = true) {K : Nat}
     (hK : ∀ i, K ≤ i → (es i).structural (σ i) = false) (hup : (σ K).phase ≠ .crashed)
